@@ -366,10 +366,18 @@ def cases(draw, nmax, kinds):
     W = np.zeros((n, n))
     case = {"kind": kind, "order": order, "cut": draw(st.integers(0, 2))}
     if kind == "len":
-        if draw(st.booleans()):
+        sub = draw(st.sampled_from(["tie", "mixed-int", "dyadic", "near-sym", "scaled"]))
+        if sub == "tie":
             vals = [gen.TIE[k] for k in draw(st.lists(st.integers(0, 2), min_size=m, max_size=m))]
+        elif sub in ("mixed-int", "near-sym"):
+            # lengths of very different magnitude, near-ties among the large ones (integers: every sum is exact)
+            vals = [gen.MIXED_INT[k] for k in draw(st.lists(st.integers(0, len(gen.MIXED_INT) - 1), min_size=m, max_size=m))]
         else:
             vals = [gen.DYADIC[k] for k in draw(st.lists(st.integers(0, 7), min_size=m, max_size=m))]
+            if sub == "scaled":
+                sc = draw(st.sampled_from(gen.POW2_SCALES))
+                vals = [v * sc for v in vals]
+        case["sub"] = sub
     elif kind == "inv":
         pool = POW2_LE1 if draw(st.booleans()) else POW2
         vals = [pool[k % len(pool)] for k in draw(st.lists(st.integers(0, 5), min_size=m, max_size=m))]
@@ -389,6 +397,13 @@ def cases(draw, nmax, kinds):
         W[i, j] = v
         if not directed:
             W[j, i] = v
+    if case.get("sub") == "near-sym":
+        # a directed length matrix that is symmetric up to +-1 on its large entries (same support in both directions)
+        W = np.maximum(W, W.T)
+        bump = draw(st.lists(st.integers(-1, 1), min_size=n * (n - 1) // 2, max_size=n * (n - 1) // 2))
+        for (i, j), b in zip(gen.pairs(n, False), bump):
+            if W[i, j] >= 1000:
+                W[j, i] = W[i, j] + b
     case["W"] = W
     return case
 
